@@ -327,7 +327,18 @@ pub const HAZARD_FINDINGS: &[(&str, &[&str])] = &[
 
 /// If the case touched a hazard whose finding is open, the failure is that finding's.
 pub fn attribute(flags: &[String], known: &Known) -> Option<(String, String)> {
+    attribute_with(flags, known, "")
+}
+
+/// `failure`: the failure text (SQL error message if any). Some hazards are attributed only to a
+/// specific failure so that other defects of the same programs stay visible.
+pub fn attribute_with(flags: &[String], known: &Known, failure: &str) -> Option<(String, String)> {
     for (h, fs) in HAZARD_FINDINGS {
+        if *h == "open_take" && !(failure.contains("OFFSET") || failure.contains("no such column")) {
+            // C07-offset-without-limit / C07-noop-take-keeps-sort are SQL errors; wrong rows of an
+            // open-ended take are not covered by them
+            continue;
+        }
         if flags.iter().any(|f| f == h) {
             for f in *fs {
                 if known.is_open(f) {
@@ -342,8 +353,9 @@ pub fn attribute(flags: &[String], known: &Known) -> Option<(String, String)> {
 pub fn check_hazard(case: &Case, known: &Known) -> Outcome {
     let mut out = check(case, known);
     out.nontrivial = false; // hazard sweeps re-exercise findings; they do not count as coverage
-    if let Verdict::Fail(..) = &out.verdict {
-        if let Some((id, what)) = attribute(&case.flags, known) {
+    if let Verdict::Fail(_, detail) = &out.verdict {
+        let failure = detail.get("error").and_then(|e| e.as_str()).unwrap_or("").to_string();
+        if let Some((id, what)) = attribute_with(&case.flags, known, &failure) {
             out.verdict = Verdict::Known(id, what);
         }
     }
